@@ -244,7 +244,13 @@ func builtinStringReplace(call FunctionCall) Value {
 			global = true
 		}
 	} else {
-		search = regexp.MustCompile(regexp.QuoteMeta(searchValue.string()))
+		// Compile, not MustCompile: a host string that is not valid UTF-8 is not a
+		// valid pattern even when quoted.
+		compiled, err := regexp.Compile(regexp.QuoteMeta(searchValue.string()))
+		if err != nil {
+			panic(call.runtime.panicSyntaxError("Invalid search string: " + err.Error()))
+		}
+		search = compiled
 	}
 
 	replaceValue := call.Argument(1)
